@@ -634,17 +634,8 @@ impl<'de> de::Deserializer<'de> for Variable {
             Variable::Bool(v) => visitor.visit_bool(v),
             Variable::Number(v) => v.deserialize_any(visitor),
             Variable::String(v) => visitor.visit_string(v),
-            Variable::Array(v) => {
-                let len = v.len();
-                visitor.visit_seq(SeqDeserializer {
-                    iter: v.into_iter(),
-                    len,
-                })
-            }
-            Variable::Object(v) => visitor.visit_map(MapDeserializer {
-                iter: v.into_iter(),
-                value: None,
-            }),
+            Variable::Array(v) => visit_array(v, visitor),
+            Variable::Object(v) => visit_object(v, visitor),
             Variable::Expref(v) => visitor.visit_string(format!("<expression: {:?}>", v)),
         }
     }
@@ -725,6 +716,44 @@ impl<'de> de::Deserializer<'de> for Variable {
     }
 }
 
+/// Visits an array and, like serde_json, fails when the visitor leaves
+/// elements unconsumed (e.g. a 3 element array decoded as a 2-tuple).
+fn visit_array<'de, V>(array: Vec<Rcvar>, visitor: V) -> Result<V::Value, Error>
+where
+    V: de::Visitor<'de>,
+{
+    let len = array.len();
+    let mut deserializer = SeqDeserializer {
+        iter: array.into_iter(),
+        len,
+    };
+    let seq = visitor.visit_seq(&mut deserializer)?;
+    if deserializer.iter.len() == 0 {
+        Ok(seq)
+    } else {
+        Err(de::Error::invalid_length(len, &"fewer elements in array"))
+    }
+}
+
+/// Visits an object and, like serde_json, fails when the visitor leaves
+/// entries unconsumed.
+fn visit_object<'de, V>(object: BTreeMap<String, Rcvar>, visitor: V) -> Result<V::Value, Error>
+where
+    V: de::Visitor<'de>,
+{
+    let len = object.len();
+    let mut deserializer = MapDeserializer {
+        iter: object.into_iter(),
+        value: None,
+    };
+    let map = visitor.visit_map(&mut deserializer)?;
+    if deserializer.iter.len() == 0 {
+        Ok(map)
+    } else {
+        Err(de::Error::invalid_length(len, &"fewer elements in map"))
+    }
+}
+
 struct VariantDeserializer {
     val: Option<Variable>,
 }
@@ -757,13 +786,13 @@ impl<'de> de::VariantAccess<'de> for VariantDeserializer {
         V: de::Visitor<'de>,
     {
         match self.val {
-            Some(Variable::Array(fields)) => de::Deserializer::deserialize_any(
-                SeqDeserializer {
-                    len: fields.len(),
-                    iter: fields.into_iter(),
-                },
-                visitor,
-            ),
+            Some(Variable::Array(fields)) => {
+                if fields.is_empty() {
+                    visitor.visit_unit()
+                } else {
+                    visit_array(fields, visitor)
+                }
+            }
             Some(other) => Err(de::Error::invalid_type(
                 other.unexpected(),
                 &"tuple variant",
@@ -784,13 +813,7 @@ impl<'de> de::VariantAccess<'de> for VariantDeserializer {
         V: de::Visitor<'de>,
     {
         match self.val {
-            Some(Variable::Object(fields)) => de::Deserializer::deserialize_any(
-                MapDeserializer {
-                    iter: fields.into_iter(),
-                    value: None,
-                },
-                visitor,
-            ),
+            Some(Variable::Object(fields)) => visit_object(fields, visitor),
             Some(other) => Err(de::Error::invalid_type(
                 other.unexpected(),
                 &"struct variant",
